@@ -129,7 +129,9 @@ impl Add for I64 {
             (Num(lhs), Num(rhs)) => match lhs.checked_add(rhs) {
                 Some(n) => Num(n),
                 None => {
-                    if lhs > 0 && rhs > 0 || lhs < 0 && rhs < 0 {
+                    // an overflow implies that both operands have the same
+                    // sign, which is the sign of the exact result
+                    if lhs > 0 {
                         PlusInf
                     } else {
                         MinusInf
